@@ -110,6 +110,8 @@ type muxBroker struct {
 	batch  int
 	order  string
 	faults map[int]fault
+	wr      *rand.Rand // used by the sending goroutine only
+	chunked bool // every write reaches the client in several pieces cut at random places
 	avTail bool // the ApiVersions answer carries, after the list of versions, bytes that spell a frame for the next id
 	gap    time.Duration
 	pause  time.Duration
@@ -356,6 +358,24 @@ func embeddedFrame(id int32) []byte {
 
 func (b *muxBroker) write(p []byte) bool {
 	b.conn.SetWriteDeadline(time.Now().Add(2 * time.Second))
+	if b.chunked && len(p) > 1 {
+		// the bytes reach the client in pieces cut at arbitrary places (TCP segments, a full bufio buffer): the Conn's
+		// bufio.Reader holds only the first piece until a reader asks for more
+		for len(p) > 0 {
+			k := 1 + b.wr.Intn(len(p))
+			if b.wr.Intn(3) == 0 && len(p) > 12 {
+				k = 1 + b.wr.Intn(12) // often inside the size / correlation id / first fields
+			}
+			if _, err := b.conn.Write(p[:k]); err != nil {
+				return false
+			}
+			p = p[k:]
+			if len(p) > 0 {
+				time.Sleep(100 * time.Microsecond)
+			}
+		}
+		return true
+	}
 	_, err := b.conn.Write(p)
 	return err == nil
 }
@@ -564,6 +584,8 @@ func connScenario(r *rand.Rand, thorough bool, single bool, stallAt int) {
 		b.batch = 1
 	}
 	b.rr = rand.New(rand.NewSource(r.Int63()))
+	b.chunked = stallAt < 0 && r.Intn(3) == 0
+	b.wr = rand.New(rand.NewSource(r.Int63()))
 	b.stallK = r.Intn(64)
 	if stallAt >= 0 {
 		b.stallK = stallAt
@@ -819,6 +841,7 @@ func main() {
 	deadlineCases()
 	bytesCases(r, thorough)
 	consumedCases(r, thorough)
+	splitCases(r, thorough)
 	out.Flush()
 	stressScenarios(r, thorough)
 	fetchScenarios(r, thorough)
@@ -856,4 +879,5 @@ func main() {
 	}
 	transportScenarios(r, thorough)
 	idWrapCases()
+	discoverCase(thorough)
 }
